@@ -8,6 +8,7 @@ exactly k times after k outputs - also after filter arithmetic reused it."""
 import itertools
 from fractions import Fraction
 
+import audiolazy
 from audiolazy import ZFilter, z, Stream
 
 from vlib.inst import Lin, Probe, frac
@@ -31,6 +32,10 @@ def rcoef(rng, allow_stream=True, gain=False):
   vals = [rng.choice(pool) for _ in range(n)]
   if not gain and all(v == 0 for v in vals):
     vals[0] = 1
+  if r < 0.42:
+    # constant finite streams built directly on itertools.repeat / its wrapper
+    v = rng.choice([x for x in pool if x != 0])
+    return (rng.choice(["rep", "lrep"]), [v] * rng.choice([1, 2, 3, 5, 8, 12]))
   if r < 0.55:
     return ("per", vals[:rng.randint(1, min(4, len(vals)))])
   if r < 0.62:
@@ -39,13 +44,17 @@ def rcoef(rng, allow_stream=True, gain=False):
 
 
 def rfir(rng, maxorder=3):
-  return {k: rcoef(rng) for k in sorted(rng.sample(range(0, maxorder + 1),
-                                                   rng.randint(1, maxorder + 1)))}
+  if maxorder > 6:       # sparse, wide: delays with one and two digits
+    n = rng.randint(1, 4)
+  else:
+    n = rng.randint(1, maxorder + 1)
+  return {k: rcoef(rng) for k in sorted(rng.sample(range(0, maxorder + 1), n))}
 
 
 def riir_den(rng, maxorder=3):
   den = {0: rcoef(rng, gain=True)}
-  for k in sorted(rng.sample(range(1, maxorder + 1), rng.randint(1, maxorder))):
+  n = rng.randint(1, 3) if maxorder > 6 else rng.randint(1, maxorder)
+  for k in sorted(rng.sample(range(1, maxorder + 1), n)):
     den[k] = rcoef(rng)
   return den
 
@@ -53,9 +62,11 @@ def riir_den(rng, maxorder=3):
 def cases(ctx):
   rng = ctx.rng
   for _ in ctx.loop(15000, 400000):
-    den = riir_den(rng) if rng.random() < 0.6 else {0: rcoef(rng, gain=True)}
+    wide = 14 if rng.random() < 0.3 else 3
+    den = riir_den(rng, wide) if rng.random() < 0.6 else \
+        {0: rcoef(rng, gain=True)}
     # (a zero numerator over a bare gain never needs the gain: not generated)
-    num = rfir(rng) if (rng.random() < 0.95 or len(den) == 1) else {}
+    num = rfir(rng, wide) if (rng.random() < 0.95 or len(den) == 1) else {}
     yield ("tv", num, den, rng.choice([0, 1, 2, 4, 7, 10, 14]),
            rng.choice(["dict", "dict", "expr"]),
            rng.choice([0, 0, "Z"]) if num else 0,
@@ -78,6 +89,10 @@ class Sources(object):
     if not isinstance(spec, tuple):
       return spec
     kind, vals = spec
+    if kind == "rep":
+      return Stream(itertools.repeat(vals[0], len(vals)))
+    if kind == "lrep":
+      return audiolazy.lazy_itertools.repeat(vals[0], len(vals))
     if kind == "per":
       p = Probe(endless=lambda i, v=tuple(vals): v[i % len(v)],
                 name="coef%d" % len(self.probes))
@@ -99,7 +114,7 @@ def build(src, num, den, form):
 
 def finite_len(*dicts):
   lens = [len(c[1]) for d in dicts for c in d.values()
-          if isinstance(c, tuple) and c[0] == "fin"]
+          if isinstance(c, tuple) and c[0] in ("fin", "rep", "lrep")]
   return min(lens) if lens else None
 
 
@@ -261,7 +276,8 @@ def run_case(ctx, case):
   if op in ("scal", "rscal", "neg"):
     # g's sources are not part of the result
     src.probes = [p for p in src.probes[:len([v for v in list(fnum.values()) +
-                  list(fden.values()) if isinstance(v, tuple)])]]
+                  list(fden.values()) if isinstance(v, tuple) and
+                  v[0] in ("fin", "per")])]]
   ctx.count("algebra:" + op)
   if any(p.pulls for p in src.probes):
     ctx.violation("coefficient-stream/read-at-construction", case)
